@@ -579,6 +579,7 @@ type c38World struct {
 	lwwW    []uint64 // per slot: bitmask of the timestamps this node wrote (top-level LWW, ts < 64)
 	tick    int64    // timestamp source for nested LWW values (always unique and increasing)
 	opid    int
+	raw     []string // cache of c38Raw(st[i])
 }
 
 func c38NewWorld(kind, nActive, nPassive, nElems, lwwMode int) *c38World {
@@ -587,6 +588,7 @@ func c38NewWorld(kind, nActive, nPassive, nElems, lwwMode int) *c38World {
 		w.st = append(w.st, c38New(kind))
 		w.active = append(w.active, i < nActive)
 		w.lwwW = append(w.lwwW, 0)
+		w.raw = append(w.raw, c38Raw(w.st[i]))
 	}
 	return w
 }
@@ -596,14 +598,15 @@ func (w *c38World) clone() *c38World {
 	c.st = append([]ReplicatedData(nil), w.st...)
 	c.active = append([]bool(nil), w.active...)
 	c.lwwW = append([]uint64(nil), w.lwwW...)
+	c.raw = append([]string(nil), w.raw...)
 	return &c
 }
 
 // key identifies the world up to replicated state.
 func (w *c38World) key() string {
 	var b strings.Builder
-	for i, s := range w.st {
-		b.WriteString(c38Raw(s))
+	for i := range w.st {
+		b.WriteString(w.raw[i])
 		b.WriteByte('|')
 		if w.kind == c38KLWW {
 			b.WriteString(strconv.FormatUint(w.lwwW[i], 16))
@@ -648,12 +651,16 @@ func (w *c38World) apply(i int, op c38Op) bool {
 		w.lwwW[i] |= 1 << uint(op.B)
 	}
 	w.st[i] = c38ApplyData(w.kind, w.st[i], c38Node(i), op, 0)
+	w.raw[i] = c38Raw(w.st[i])
 	w.opid++
 	return true
 }
 
 // merge sets slot i to st[i] ⊔ st[j].
-func (w *c38World) merge(i, j int) { w.st[i] = w.st[i].Merge(w.st[j]) }
+func (w *c38World) merge(i, j int) {
+	w.st[i] = w.st[i].Merge(w.st[j])
+	w.raw[i] = c38Raw(w.st[i])
+}
 
 // c38BoundedOps enumerates the small op alphabet of the bounded-exhaustive part.
 func c38BoundedOps(kind, nElems int) []c38Op {
